@@ -894,7 +894,9 @@ class SetIndex(BaseSetIndexSortValues):
             and self._other in self.frame.columns
         ):
             head = NFirst(self.frame, n=parent.n, _columns=self._other, ascending=True)
-            return SetIndex(head, _other=self._other)
+            return SetIndex(
+                head, _other=self._other, drop=self.drop, append=self.operand("append")
+            )
 
         if (
             isinstance(parent, Tail)
@@ -902,7 +904,9 @@ class SetIndex(BaseSetIndexSortValues):
             and self._other in self.frame.columns
         ):
             tail = NLast(self.frame, n=parent.n, _columns=self._other, ascending=True)
-            return SetIndex(tail, _other=self._other)
+            return SetIndex(
+                tail, _other=self._other, drop=self.drop, append=self.operand("append")
+            )
 
         if isinstance(parent, Projection):
             addition_columns = (
@@ -1056,12 +1060,19 @@ class SortValues(BaseSetIndexSortValues):
     def _simplify_up(self, parent, dependents):
         from dask_expr._expr import Filter, Head, Tail
 
-        if isinstance(parent, Head):
+        # The top-n rewrite sorts with the default options only
+        plain_sort = (
+            self.na_position == "last"
+            and not self.ignore_index
+            and self.operand("sort_function") is None
+            and self.operand("sort_function_kwargs") is None
+        )
+        if isinstance(parent, Head) and plain_sort:
             return NFirst(
                 self.frame, n=parent.n, _columns=self.by, ascending=self.ascending
             )
 
-        if isinstance(parent, Tail):
+        if isinstance(parent, Tail) and plain_sort:
             return NLast(
                 self.frame, n=parent.n, _columns=self.by, ascending=self.ascending
             )
